@@ -245,7 +245,7 @@ func writeValue(buf *bytes.Buffer, v value) {
 	case *Term:
 		buf.WriteString(v.String())
 
-	case sstr, sdate, snum:
+	case sstr, sdate, snum, shash:
 		buf.WriteString(describeString(v))
 
 	case *gochan:
